@@ -418,6 +418,7 @@ class nx_flow_mod (of.ofp_flow_mod, of.ofp_vendor_base):
             _unpack("!QHHHHLHHH", raw, offset)
     offset = _skip(raw, offset, 6)
     offset = self.match.unpack(raw, offset, match_len)
+    offset = _skip(raw, offset, (match_len + 7)//8*8 - match_len)
     offset,self.actions = of._unpack_actions(raw,
         length-(offset - _o), offset)
     assert length == len(self)
